@@ -3,7 +3,7 @@
    division, index and panicking constructor of fold / stat / view as repaired, with the source site of each) never
    reaches a Panic outcome on any spectrum the readers accept, for every statistic, every shape (axes of length 1 and 2
    included), every option value. What is exercised only: clap, the VCF/BCF decoders (noodles), allocation. *)
-From Sfs Require Import Index Panic IndexP PanicP Npy Text NpyP TextP ReadOkP.
+From Sfs Require Import Index Panic IndexP PanicP Npy Text NpyP TextP ReadOkP Create PanicCreate CreateP PanicCreateP.
 From Coq Require Import Sorted.
 
 (* what the readers guarantee for ANY input bytes: an accepted spectrum has at least one axis (the header grammars
@@ -44,6 +44,30 @@ Print Assumptions C17_projection_never_panics.
 Theorem C17_index_sum_never_divides_by_zero : forall sh fl, positive_shape sh -> no_panic (index_sum_skel sh (elements sh) fl).
 Proof. exact index_sum_skel_no_panic. Qed.
 Print Assumptions C17_index_sum_never_divides_by_zero.
+
+(* `create` below the decoders: for every configuration the builder accepts (from distinct sample columns), every stream of
+   decoded records - any number of genotypes per record, any ploidy, any class - strict or not, the skeleton of the
+   run (population-id indexing, sample lookups, spectrum indexing by the site's counts, the projection iterator and the
+   hypergeometric kernel's subtractions) ends in Done or Fail; Done exactly when the modelled run yields a spectrum *)
+Theorem C17_create_never_panics : forall cfg strict items, cfg_wf cfg -> no_panic (create_skel cfg strict (init_rstate cfg) items).
+Proof. exact create_skel_no_panic. Qed.
+Print Assumptions C17_create_never_panics.
+
+Theorem C17_create_done_iff_spectrum : forall cfg strict items, cfg_wf cfg ->
+  (create_skel cfg strict (init_rstate cfg) items = Done tt <-> exists st, run_items cfg strict (init_rstate cfg) items = inl st).
+Proof. exact create_skel_done_iff. Qed.
+Print Assumptions C17_create_done_iff_spectrum.
+
+(* the classes must be those of real genotypes: a made-up class `called 3` would index out of bounds *)
+Theorem C17_create_needs_classified_genotypes :
+  ~ (forall cfg st gs, cfg_wf cfg -> sstate_ok cfg st -> no_panic (record_skel cfg st gs)).
+Proof. exact record_skel_arbitrary_classes_refuted. Qed.
+Print Assumptions C17_create_needs_classified_genotypes.
+
+(* the npy writer (repaired) refuses a header that does not fit the 2-byte length field instead of panicking *)
+Theorem C17_npy_writer_refuses_long_headers : forall sh vals, write_npy_checked sh vals = None <-> (65536 <= header_len_of sh)%N.
+Proof. exact write_npy_checked_none. Qed.
+Print Assumptions C17_npy_writer_refuses_long_headers.
 
 Close Scope N_scope. Open Scope nat_scope.
 (* the guard is needed: without it the skeleton does panic (the unrepaired code did) *)
